@@ -11,6 +11,7 @@
  R-LOCK        WebSocketServer::_clients is only modified under its mutex
  C11.partial   the blocking socket read/write loops under receive()/send() pass exactly the remainder on retry and stop exactly at the
                requested total (a frame delivered in several TCP segments is still read whole)
+ C11.payloadidx constant-position accesses of the payload buffer in receive() are guarded by a payload length that covers them
  C11.alive     Socket_::disconnected() interpreted against arrival scripts: data that arrives between its queries never makes a live
                connection look closed; end of stream does
  C11.sendstate send() calls nothing that closes the connection (stores `_closed`, closes the socket) before its socket write
@@ -42,6 +43,7 @@ def run(ctx):
     check_clients(ctx, prog)
     check_zero_read(ctx, prog)
     check_frame_kept(ctx, prog, recv)
+    check_payload_index(ctx, prog, recv)
     check_alive(ctx, prog)
     check_send_effect(ctx, prog, send)
     import C16
@@ -789,3 +791,65 @@ def check_send_effect(ctx, prog, send):
     ctx.evaluations += n_calls + 1
     ctx.check(not found, 'C11.sendstate', send['pq'], role, fwhere(send), '%d member call(s) before the write, none of which closes the connection' % n_calls,
               'send() changes the connection state before writing (%s): once the peer has half-closed its sending side the probe sees end-of-stream, closes the socket and the message is silently dropped although the peer still reads' % (found[0] if found else ''))
+
+
+def check_payload_index(ctx, prog, recv):
+    """C11.payloadidx: receive() looks into the payload of a control frame (the status code of a Close frame) only as far as the
+    payload goes.  The payload buffer is fresh per frame and resized by the frame length, so its length is that length; for
+    every access with a constant position - `buffer[K]`, `buffer.slice(K)`, `buffer.remove(0, K)` - the guards that dominate
+    it are evaluated with the payload length (the buffer's length() and the frame-length variable it was resized by) bound to
+    0..K+1: a length that does not cover the position must not be admitted (a 1-byte Close payload is a frame a peer can send)."""
+    import bounded
+    g = q.Guarded(recv)
+    bufs = {}
+    for s_ in ir.walk_stmts(recv['body']):
+        if s_.get('k') == 'decl':
+            for v in s_['vars']:
+                if (T(recv, v['t']).get('rec') or '').replace(' ', '') in ('asl::Array<unsignedchar>', 'asl::Array<byte>') or T(recv, v['t']).get('recp') == 'asl::Array' and 'char' in (T(recv, v['t']).get('rec') or ''):
+                    bufs[v['id']] = v
+    lenvars = {}
+    for e in fn_exprs(recv):
+        if e.get('k') == 'call' and (e.get('pq') or '').endswith('Array::resize') and e.get('obj') is not None and strip(e['obj']).get('id') in bufs and e.get('a'):
+            a0 = strip(e['a'][0])
+            if a0.get('k') == 'bin' and a0.get('op') == '+':
+                for side in (a0['x'], a0['y']):
+                    sv = strip(side)
+                    if sv.get('k') == 'var' and sv.get('vk') == 'local':
+                        lenvars.setdefault(strip(e['obj'])['id'], sv['id'])
+    n = 0
+    for e in fn_exprs(recv):
+        if e.get('k') != 'call' or e.get('obj') is None or strip(e['obj']).get('id') not in bufs:
+            continue
+        vid = strip(e['obj'])['id']
+        nm = (e.get('pq') or '').split('::')[-1]
+        need = None
+        if e.get('op') == '[]' and e.get('a') and const_val(e['a'][0]) is not None:
+            need = const_val(e['a'][0]) + 1
+        elif nm == 'slice' and e.get('a') and const_val(e['a'][0]) is not None:
+            need = const_val(e['a'][0])
+        elif nm == 'remove' and len(e.get('a', [])) == 2 and const_val(e['a'][0]) is not None and const_val(e['a'][1]) is not None:
+            need = const_val(e['a'][0]) + const_val(e['a'][1])
+        if not need or need <= 0:
+            continue
+        n += 1
+        role = 'receive:`%s` stays inside the payload' % pe(e)[:40]
+        ltxt = set(pe(w) for c, pol, kind in g.of(e) if isinstance(c, dict) for w in walk_expr(q.expand(recv, c, bools_only=True))
+                   if w.get('k') == 'call' and (w.get('pq') or '').endswith('::length') and w.get('obj') is not None and strip(w['obj']).get('id') == vid)
+        worst = und = None
+        for L in range(0, need):
+            env = {lenvars[vid]: L} if vid in lenvars else {}
+            r = bounded.admitted3(bounded.Bound(prog, recv, env, dict((t_, L) for t_ in ltxt)), g.of(e), g,
+                                  relevant=lambda c_: any((w.get('k') == 'var' and w.get('id') == lenvars.get(vid)) or (w.get('k') == 'call' and pe(w) in ltxt) for w in walk_expr(q.expand(recv, c_, bools_only=True))))
+            ctx.evaluations += 1
+            if r is True:
+                worst = L
+                break
+            if r is None:
+                und = L
+        if worst is not None:
+            ctx.violation('C11.payloadidx', recv['pq'], role, fwhere(recv, e.get('l')), 'a control frame with a %d-byte payload reaches `%s`, which needs %d byte(s): the read leaves the payload and a negative-length / garbage message is delivered (a 1-byte Close payload is enough)' % (worst, pe(e)[:50], need))
+        elif und is not None:
+            ctx.undecided('C11.payloadidx', recv['pq'], role, fwhere(recv, e.get('l')), 'guards not evaluable for a %d-byte payload' % und)
+        else:
+            ctx.ok('C11.payloadidx', recv['pq'], role, fwhere(recv, e.get('l')), 'only reached for payloads of at least %d byte(s)' % need)
+    ctx.floor('C11.payloadidx constant-position accesses of the payload', n, 2)
